@@ -31,7 +31,9 @@ import (
 	"strings"
 	"time"
 
+	"deps.dev/util/resolve"
 	"github.com/google/osv-scalibr/clients/datasource"
+	"github.com/google/osv-scalibr/clients/resolution"
 	"github.com/google/osv-scalibr/verifsched"
 	"verif/ev"
 	"verif/scankit"
@@ -479,11 +481,55 @@ type job struct {
 	Index  int    `json:"index"`
 }
 
+// lazyProg: N threads ask the combined native client for the client of an ecosystem at the same
+// time. The per-ecosystem client owns the request caches, so there must be exactly one per
+// ecosystem whatever the interleaving: every caller gets the same instance.
+type lazyProg struct {
+	Systems []resolve.System // one entry per thread
+}
+
+func (p lazyProg) name() string { return fmt.Sprintf("cache-owner{lazy client for %v}", p.Systems) } // counted in the cache family
+
+func (p lazyProg) fresh() (func(), func(*verifsched.Exec) (string, string, string)) {
+	c, _ := resolution.NewCombinedNativeClient(resolution.CombinedNativeClientOptions{PyPIRegistry: "http://127.0.0.1:1/"})
+	got := make([]resolve.Client, len(p.Systems))
+	errs := make([]error, len(p.Systems))
+	body := func() {
+		for i, s := range p.Systems {
+			i, s := i, s
+			verifsched.Go(func() {
+				verifsched.Point("call")
+				got[i], errs[i] = c.VerifClientForSystem(s)
+			})
+		}
+	}
+	verify := func(e *verifsched.Exec) (string, string, string) {
+		first := map[resolve.System]resolve.Client{}
+		for i, s := range p.Systems {
+			if errs[i] != nil || got[i] == nil {
+				return "lazy-client:error", fmt.Sprintf("thread %d: client %v, error %v", i, got[i], errs[i]), "error"
+			}
+			if f, ok := first[s]; ok && f != got[i] {
+				return "lazy-client:two-instances", fmt.Sprintf("two callers got different client instances for %v (each instance has its own request cache)", s), "two"
+			}
+			first[s] = got[i]
+		}
+		return "", "", "one-instance-per-system"
+	}
+	return body, verify
+}
+
+func lazyPrograms() []harness {
+	py := resolve.PyPI
+	return []harness{lazyProg{[]resolve.System{py, py}}, lazyProg{[]resolve.System{py, py, py}}, lazyProg{[]resolve.System{py, py, py, py}}}
+}
+
 func allHarnesses(thorough bool) []harness {
 	var hs []harness
 	for _, p := range cachePrograms(thorough) {
 		hs = append(hs, p)
 	}
+	hs = append(hs, lazyPrograms()...)
 	hs = append(hs, patchHarnesses(thorough)...)
 	return hs
 }
@@ -677,7 +723,7 @@ func main() {
 	r.Assume("scheduling points at Mutex/WaitGroup/channel operations, goroutine spawn and harness callbacks are sufficient; unsynchronised accesses are the business of the free-running -race pass")
 	r.Assume("instrumentation is regenerated from the repository's current cache.go and common.go on every build (overlay), nothing else in those packages spawns goroutines")
 	exhaustive := !total["cache"].HorizonCut && !total["patches"].HorizonCut
-	r.Finish(fmt.Sprintf("stateless DFS over scheduler choice sequences, preemption bound %d (every execution with <= %d preemptions; non-preemptive choices - blocked thread, channel delivery order - are unbounded), on: RequestCache programs (2 threads x 1-2 ops, 3 threads x 1 op, 3 threads x (2,2,1) ops, 4 threads x Get(k1), over {Get k1, Get k2, GetMap} plus 2-thread programs with a SetMap of a disjoint key, x {all fetches ok, first fetch of a key fails} x {empty, pre-populated}); override/relax ComputePatches on universes with 2-3 vulnerabilities (callbacks = resolve-client and matcher calls). states = choice-tree nodes, transitions = scheduling steps, traces = complete executions of the real instrumented code; non-trivial = programs with >1 distinct outcome vector. Separate free-running -race pass: %d runs", bound, bound, raceRuns), exhaustive)
+	r.Finish(fmt.Sprintf("stateless DFS over scheduler choice sequences, preemption bound %d (every execution with <= %d preemptions; non-preemptive choices - blocked thread, channel delivery order - are unbounded), on: 2-4 concurrent first uses of the combined native client's lazily created per-ecosystem client (exactly one instance); RequestCache programs (2 threads x 1-2 ops, 3 threads x 1 op, 3 threads x (2,2,1) ops, 4 threads x Get(k1), over {Get k1, Get k2, GetMap} plus 2-thread programs with a SetMap of a disjoint key, x {all fetches ok, first fetch of a key fails} x {empty, pre-populated}); override/relax ComputePatches on universes with 2-3 vulnerabilities (callbacks = resolve-client and matcher calls). states = choice-tree nodes, transitions = scheduling steps, traces = complete executions of the real instrumented code; non-trivial = programs with >1 distinct outcome vector. Separate free-running -race pass: %d runs", bound, bound, raceRuns), exhaustive)
 }
 
 func replay(rp string) {
